@@ -96,6 +96,37 @@ def perturbations(rng, el):
                 out.append(('perturb_%s_tol0' % target, e, 0.0))
                 out.append(('perturb_%s_tol_above' % target, e, 2e-6))
                 out.append(('perturb_%s_tol_below' % target, e, 5e-7))
+        shaped = []
+        # a general contraction with one contraction fewer / one more, a shell with one primitive fewer: tables of another shape
+        gen = [i for i, sh in enumerate(shells) if len(sh['angular_momentum']) == 1 and len(sh['coefficients']) > 1]
+        if gen:
+            i = rng.choice(gen)
+            nc = len(shells[i]['coefficients'])
+            for name, k in (('drop_first_contraction', 0), ('drop_last_contraction', nc - 1), ('drop_contraction', rng.randrange(nc))):
+                e = copy.deepcopy(el)
+                e['electron_shells'][i]['coefficients'].pop(k)
+                shaped.append((name, e, 0.0))
+                # ... and whichever contraction comes last in the library's canonical order (sort_shell)
+            from basis_set_exchange import sort as bse_sort
+            e = copy.deepcopy(el)
+            e['electron_shells'][i] = bse_sort.sort_shell(e['electron_shells'][i])
+            e['electron_shells'][i]['coefficients'].pop()
+            shaped.append(('drop_contraction_last_in_canonical_order', e, 0.0))
+            e = copy.deepcopy(el)
+            e['electron_shells'][i] = bse_sort.sort_shell(e['electron_shells'][i])
+            e['electron_shells'][i]['coefficients'].pop(0)
+            shaped.append(('drop_contraction_first_in_canonical_order', e, 0.0))
+        big = [i for i, sh in enumerate(shells) if len(sh['exponents']) > 1]
+        if big:
+            i = rng.choice(big)
+            k = rng.choice([0, len(shells[i]['exponents']) - 1, rng.randrange(len(shells[i]['exponents']))])
+            e = copy.deepcopy(el)
+            e['electron_shells'][i]['exponents'].pop(k)
+            for c in e['electron_shells'][i]['coefficients']:
+                c.pop(k)
+            shaped.append(('drop_primitive', e, 0.0))
+        # (only where what is left is still a well-formed shell list: every primitive used, no empty contraction)
+        out += [x for x in shaped if all(wf_shell(sh) for sh in x[1]['electron_shells'])]
         if len(shells) > 1:
             e = copy.deepcopy(el)
             e['electron_shells'].pop(rng.randrange(len(shells)))
@@ -127,6 +158,16 @@ def perturbations(rng, el):
         e = copy.deepcopy(el)
         e['ecp_electrons'] += 2
         out.append(('ecp_electrons', e, 0.0))
+        multi = [p for p in el['ecp_potentials'] if len(p['r_exponents']) > 1]
+        if multi:
+            e = copy.deepcopy(el)
+            p = rng.choice([p for p in e['ecp_potentials'] if len(p['r_exponents']) > 1])
+            k = rng.choice([0, len(p['r_exponents']) - 1])
+            p['r_exponents'].pop(k)
+            p['gaussian_exponents'].pop(k)
+            for c in p['coefficients']:
+                c.pop(k)
+            out.append(('ecp_drop_term', e, 0.0))
         if len(e['ecp_potentials']) > 1:
             e = copy.deepcopy(el)
             e['ecp_potentials'].pop()
